@@ -29,7 +29,8 @@ GEN_MODULES = ("Locales",)
 MIN_THEOREMS = 26
 RULE = ("every shipped locale x 7 units x counts 0..200 (quick) / 0..1000 (thorough) x is_now x direction x absolute "
         "through format_diff / DifferenceFormatter.format on real Durations, Intervals or attribute carriers; every rounding "
-        "threshold neighbourhood; diff_for_humans(other) on DateTime/Date/Time with the reference given as the pendulum class, its native counterpart, or (Date) a pendulum/native datetime; in_words on Durations and Intervals; "
+        "threshold neighbourhood; random pairs of instants (month ends and the turn of the year over-sampled) whose English phrase must be within "
+        "one unit of the true elapsed time and carry the right direction marker (oracle only); diff_for_humans(other) on DateTime/Date/Time with the reference given as the pendulum class, its native counterpart, or (Date) a pendulum/native datetime; in_words on Durations and Intervals; "
         "plural/ordinal lambdas on -120..1300; 14 locale tokens x 12 months x 7 weekdays x am/pm. non-trivial = distinct op "
         "that is not a plain mid-range count with the default flags")
 EXHAUSTIVE = {"quick": False, "thorough": True}
@@ -113,7 +114,40 @@ def threshold_comps():
     return out
 
 
+_EPOCH = dt.datetime(1970, 1, 1)
+
+
+def _pair_ops(rng, tier):
+    """random pairs of instants (UTC, English phrases): the magnitude must be within one unit of the true elapsed time and the
+    direction right, whatever components precise_diff reports in between. Month ends and the turn of the year are over-sampled."""
+    n = {"quick": 12_000, "thorough": 400_000, "widen": 60_000}[tier]
+    lo = int((dt.datetime(1800, 1, 1) - _EPOCH).total_seconds())
+    hi = int((dt.datetime(2300, 1, 1) - _EPOCH).total_seconds())
+    for _ in range(n):
+        r = rng.random()
+        if r < 0.35:
+            # the later value early in a month, the earlier one late in the month before (January twice as often)
+            y, m = rng.randint(1801, 2299), rng.choice((1, 1, 1, 2, 3, 3, 5, 7, 8, 10, 12))
+            d2 = rng.randint(1, 12)
+            b = dt.datetime(y, m, d2, rng.randint(0, 23), rng.randint(0, 59), rng.randint(0, 59))
+            prev_last = dt.datetime(y, m, 1) - dt.timedelta(days=1)
+            a = prev_last.replace(day=rng.randint(max(1, d2), prev_last.day), hour=rng.randint(0, 23), minute=rng.randint(0, 59))
+            if rng.random() < 0.3:
+                a = a.replace(year=a.year - rng.randint(0, 3)) if not (a.month == 2 and a.day == 29) else a
+            ta, tb = int((a - _EPOCH).total_seconds()), int((b - _EPOCH).total_seconds())
+        else:
+            ta = rng.randint(lo, hi)
+            span = int(10 ** rng.uniform(0, 8.2)) * rng.choice((1, 1, 1, 60, 3600, 86400))
+            tb = ta + min(span, 4 * 366 * 86400)
+        if not lo - 5 * 366 * 86400 < ta <= tb < hi:
+            continue
+        if rng.random() < 0.5:
+            ta, tb = tb, ta
+        yield ("pair", ta, tb, rng.randint(0, 1))
+
+
 def gen_ops(rng, tier):
+    yield from _pair_ops(rng, tier)
     locs = locales()
     top = 200 if tier == "quick" else 1000
     flags = [(inv, now, ab) for inv in (0, 1) for now in (0, 1) for ab in (0, 1)]
@@ -238,6 +272,8 @@ def corpus():
 
 def line(op, backend):
     k = op[0]
+    if k == "pair":
+        return None          # oracle only: the true elapsed time is the reference, not the model's component arithmetic
     if k == "fmt":
         return " ".join(["c18fmt", op[2]] + [str(x) for x in op[3:]])
     if k == "words":
@@ -394,6 +430,10 @@ def impl(op, backend):
     if k == "plural":
         L = _P["Locale"].load(op[1])
         return "ok " + enc_str(L.plural(op[2])) + " " + enc_str(L.ordinal(op[2]))
+    if k == "pair":
+        _, ta, tb, ab = op
+        a, b = p.from_timestamp(ta), p.from_timestamp(tb)
+        return "ok " + enc_str(a.diff_for_humans(b, bool(ab), "en"))
     if k == "ordz":
         return "ok " + enc_str(_P["Locale"].load(op[1]).ordinalize(op[2]))
     if k == "tok":
@@ -479,10 +519,44 @@ def _expected_words(data, c, us, sep):
     return _subst(tr["microsecond"][data["plural"](0)], "0"), None
 
 
+_PAIR_UNITS = {"second": (1, 1), "minute": (60, 60), "hour": (3600, 3600), "day": (86400, 86400), "week": (7 * 86400, 7 * 86400),
+               "month": (28 * 86400, 31 * 86400), "year": (365 * 86400, 366 * 86400)}
+
+
+def _o_pair(op, phrase):
+    """English phrase of a.diff_for_humans(b): direction marker and a magnitude within one unit of the true elapsed time"""
+    _, ta, tb, ab = op
+    elapsed = abs(tb - ta)
+    words = phrase.split(" ")
+    marker = None
+    if words[-1] in ("before", "after"):
+        marker = words.pop()
+    if ab:
+        if marker is not None:
+            return f"absolute=True but the phrase carries a direction marker: {phrase!r}"
+    else:
+        want = "after" if ta > tb else "before"
+        if marker != want:
+            return f"instance is {'later' if ta > tb else 'not later'} than the reference, phrase {phrase!r} should end with {want!r}"
+    if words == ["a", "few", "seconds"]:
+        return None if elapsed <= 11 else f"{phrase!r} for {elapsed} s"
+    if len(words) != 2 or not words[0].isdigit() or words[1].rstrip("s") not in _PAIR_UNITS:
+        return f"unexpected phrase {phrase!r}"
+    n = int(words[0])
+    umin, umax = _PAIR_UNITS[words[1].rstrip("s")]
+    if (n == 1) != (not words[1].endswith("s")):
+        return f"plural form does not match the count in {phrase!r}"
+    if not (n * umin - umax <= elapsed <= (n + 1) * umax):
+        return f"{phrase!r} is not within one unit of the true elapsed time {elapsed} s ({elapsed / 86400:.2f} days)"
+    return None
+
+
 def oracle(op, out, backend):
     k = op[0]
     if not out.startswith("ok"):
         return f"raised {out[4:]}"
+    if k == "pair":
+        return _o_pair(op, dec_str(out.split(" ", 1)[1]))
     if k == "alias":
         return None if out == "ok 1" else f"Locale.load({op[1]!r}) is not the cached Locale.load({op[2]!r})"
     if k == "plural":
@@ -555,6 +629,10 @@ def oracle(op, out, backend):
 
 def tag(op, out):
     k = op[0]
+    if k == "pair":
+        w = dec_str(out.split(" ", 1)[1]).split(" ") if out.startswith("ok ") else ["?"]
+        w = [x for x in w if x not in ("before", "after")]
+        return "pair:" + (w[-1].rstrip("s") if w else "?")
     if k == "fmt":
         c = op[3:10]
         inv, now, ab = op[10:13]
